@@ -29,6 +29,7 @@ EXPLANATION = (
     "proteins. R14.4 classification tables are pairwise disjoint and cover every label the component predicates test; "
     "reload rebuilds through add_component. R14.5 combine_modules returns None whenever the merge is incomplete and "
     "mutates the module lists only afterwards."
+    ' R14.7: the look-ahead handed to add_component is cut from the walked component sequence itself at the next position.'
 )
 UNDECIDED = [
     "the partition of every domain string into modules (a finite-state exploration is a different technique family)",
